@@ -122,9 +122,18 @@ pub enum Step {
     /// `handle.close().await` as a task, polled by the following turns
     Close { h: u16 },
     Turn { k: u8 },
+    /// only the driver half of a turn: completions are recorded, no task runs; the next step acts
+    /// in the window "completed in the driver, not yet seen by its future"
+    PollOnly,
     /// a descriptor-producing operation; `cancel_after`: drop its future after that many loop turns
     /// (None: let it finish and take the descriptor as a new object)
-    Produce { what: Produce, cancel_after: Option<u8> },
+    /// `half`: one more driver-only poll right before the drop
+    Produce {
+        what: Produce,
+        cancel_after: Option<u8>,
+        #[serde(default)]
+        half: bool,
+    },
 }
 
 #[derive(Debug, Clone, Serialize, Deserialize)]
@@ -137,6 +146,15 @@ pub struct FdCase {
     /// "close-lost-wakeup/after-second-close" is listed as known)
     #[serde(default)]
     pub second_close: bool,
+    /// end of the case: drop the runtime while the remaining handles, pending operations and
+    /// close() futures are still alive, instead of releasing them one by one first
+    #[serde(default)]
+    pub abrupt_end: bool,
+    /// with `abrupt_end`: a close() whose close operation is still in flight may be caught by the
+    /// runtime's drop (false: such a close() is first driven to its end — the generator's setting
+    /// while the finding "descriptor-leaked/close-in-flight-at-runtime-drop" is listed as known)
+    #[serde(default)]
+    pub close_in_flight_at_drop: bool,
 }
 
 // ------------------------------------------------------------------------------------------------
@@ -581,13 +599,24 @@ pub fn run_fd(case: &FdCase) -> Outcome {
                 libc::S_IFREG => "file",
                 _ => "other",
             };
-            leak.get_or_insert((format!("C06/descriptor-leaked/{what}"), format!("descriptor {fd} -> {} ({what}) exists after the case and did not exist before", describe(*fd))));
+            let obj = LAST_OBJS.with(|o| o.borrow().iter().find(|x| x.0 == *id).copied());
+            let sig = match obj {
+                Some((_, _name, true, false)) if case.abrupt_end => "C06/descriptor-leaked/close-in-flight-at-runtime-drop".to_string(),
+                _ => format!("C06/descriptor-leaked/{what}"),
+            };
+            leak.get_or_insert((sig, format!("descriptor {fd} -> {} ({what}) exists after the case and did not exist before", describe(*fd))));
         }
     }
     for (fd, id) in &before {
         if after.get(fd) != Some(id) {
             leak.get_or_insert(("C06/foreign-descriptor-closed".into(), format!("descriptor {fd}, open before the case, is gone or replaced afterwards")));
         }
+    }
+    match &outcome {
+        Some(Outcome::Inconclusive { why }) if why.starts_with("watchdog") => {
+            WATCHDOG_STREAK.fetch_add(1, Ordering::Relaxed);
+        }
+        _ => WATCHDOG_STREAK.store(0, Ordering::Relaxed),
     }
     if let Some(Outcome::Inconclusive { why }) = &outcome {
         if std::env::var("VERIF_VERBOSE").is_ok() {
@@ -604,7 +633,13 @@ pub fn run_fd(case: &FdCase) -> Outcome {
     Outcome::pass_owned(nontrivial, lab_labels)
 }
 
+thread_local! {
+    /// (identity, kind, close() started, close() finished) of the objects of the case just run
+    static LAST_OBJS: RefCell<Vec<(Ident, &'static str, bool, bool)>> = const { RefCell::new(vec![]) };
+}
+
 fn run_inner(case: &FdCase, dir: PathBuf) -> Result<(Vec<String>, bool), Outcome> {
+    LAST_OBJS.with(|o| o.borrow_mut().clear());
     let cfg = RtCfg::new(case.drv);
     let rt = build_rt(&cfg).map_err(|e| Outcome::inconclusive(format!("runtime build: {e}")))?;
     let lab = Rc::new(RefCell::new(Lab {
@@ -804,7 +839,8 @@ fn run_inner(case: &FdCase, dir: PathBuf) -> Result<(Vec<String>, bool), Outcome
                     lab.borrow_mut().service_closers(&rt, &when, false);
                 }
             }
-            Step::Produce { what, cancel_after } => {
+            Step::PollOnly => netlab::poll_only(&rt, Duration::from_millis(1)),
+            Step::Produce { what, cancel_after, half } => {
                 if produced + cancelled_producers >= 6 {
                     continue;
                 }
@@ -890,6 +926,9 @@ fn run_inner(case: &FdCase, dir: PathBuf) -> Result<(Vec<String>, bool), Outcome
                 match cancel_after {
                     Some(k) => {
                         turns(&rt, *k as usize, Duration::from_millis(1));
+                        if *half {
+                            netlab::poll_only(&rt, Duration::from_millis(1));
+                        }
                         let finished = jh.is_finished();
                         rt.enter(|| drop(jh));
                         // let the cancellation reach the kernel before the harness makes another
@@ -899,7 +938,7 @@ fn run_inner(case: &FdCase, dir: PathBuf) -> Result<(Vec<String>, bool), Outcome
                         lab.borrow_mut().label(if finished { "producer-dropped-after-completion" } else { "producer-cancelled-in-flight" });
                     }
                     None => {
-                        if !drive(&rt, || jh.is_finished(), Duration::from_secs(30)) {
+                        if !drive(&rt, || jh.is_finished(), watchdog_secs(30)) {
                             rt.enter(|| drop(jh));
                             return Err(Outcome::inconclusive(format!("watchdog: producer {what:?}")));
                         }
@@ -926,6 +965,62 @@ fn run_inner(case: &FdCase, dir: PathBuf) -> Result<(Vec<String>, bool), Outcome
         lab.borrow_mut().audit(&when);
     }
 
+    if case.abrupt_end && lab.borrow().violation.is_none() {
+        // ---- abrupt end: the runtime goes first, with everything still in flight
+        let pending_ops = lab.borrow().tasks.iter().filter(|t| !t.jh.is_finished()).count();
+        let mut labels: Vec<String> = vec![];
+        if !case.close_in_flight_at_drop && lab.borrow().closers.iter().any(|c| c.primary && c.result.is_none()) {
+            // known finding: not generated — a close() that could still finish is driven to its end first
+            let start = std::time::Instant::now();
+            while start.elapsed() < watchdog_secs(10) && lab.borrow().closers.iter().any(|c| c.result.is_none()) && live_ops() > 0 {
+                turns(&rt, 1, Duration::from_millis(1));
+                lab.borrow_mut().service_closers(&rt, "before the abrupt end", false);
+            }
+            labels.push("excluded-known:close-in-flight-at-drop".into());
+        }
+        if lab.borrow().closers.iter().any(|c| c.primary && c.result.is_none()) {
+            labels.push("close-pending-at-runtime-drop".into());
+        }
+        LAST_OBJS.with(|o| *o.borrow_mut() = lab.borrow().objs.iter().map(|x| (x.id, x.name, x.closer_started, x.closer_done)).collect());
+        let (sentinels, harness_fds, close_raced, nobj) = {
+            let mut l = lab.borrow_mut();
+            labels.append(&mut l.labels);
+            (std::mem::take(&mut l.sentinels), std::mem::take(&mut l.harness_fds), l.close_raced, l.objs.len())
+        };
+        drop((tcp_l, unix_l));
+        drop(rt);
+        // now the futures and handles that outlived it
+        let (tasks, closers, handles) = {
+            let mut l = lab.borrow_mut();
+            (std::mem::take(&mut l.tasks), std::mem::take(&mut l.closers), std::mem::take(&mut l.handles))
+        };
+        drop((tasks, closers, handles));
+        let mut violation = None;
+        for (fd, id) in &sentinels {
+            if ident(*fd) != Some(*id) {
+                violation = Some(("C06/closed-twice".to_string(), format!("sentinel descriptor {fd} was closed or replaced when the runtime was dropped with {pending_ops} operations pending")));
+            }
+        }
+        for (fd, id) in sentinels {
+            if ident(fd) == Some(id) {
+                unsafe { libc::close(fd) };
+            }
+        }
+        for fd in harness_fds {
+            unsafe { libc::close(fd) };
+        }
+        if let Some((sig, detail)) = violation {
+            return Err(Outcome::violation(sig, detail));
+        }
+        labels.push(format!("drv:{}", case.drv.name()));
+        labels.push(format!("objects:{nobj}"));
+        labels.push("abrupt-end".into());
+        if pending_ops > 0 {
+            labels.push("runtime-dropped-with-pending-ops".into());
+        }
+        let nontrivial = close_raced || pending_ops > 0 || labels.iter().any(|l| l == "producer-cancelled-in-flight" || l == "producer-dropped-after-completion");
+        return Ok((labels, nontrivial));
+    }
     // ---- end phase: let go of everything; a waiting close() must now resolve
     let handles = std::mem::take(&mut lab.borrow_mut().handles);
     rt.enter(|| drop(handles));
@@ -933,7 +1028,7 @@ fn run_inner(case: &FdCase, dir: PathBuf) -> Result<(Vec<String>, bool), Outcome
     rt.enter(|| drop(ops));
     drop((tcp_l, unix_l));
     let all_closed = |l: &Lab| l.closers.iter().all(|c| c.result.is_some());
-    let watchdog = Duration::from_secs(std::env::var("VERIF_WATCHDOG").ok().and_then(|v| v.parse().ok()).unwrap_or(30));
+    let watchdog = watchdog_secs(30);
     let start = std::time::Instant::now();
     let mut turn = 0;
     let mut rescued = false;
@@ -1055,7 +1150,8 @@ fn step() -> impl Strategy<Value = Step> + Clone {
         3 => any::<u16>().prop_map(|t| Step::CancelOp { t }),
         4 => any::<u16>().prop_map(|h| Step::Close { h }),
         4 => (1u8..=3).prop_map(|k| Step::Turn { k }),
-        4 => (produce(), prop_oneof![1 => Just(None), 4 => (0u8..=4).prop_map(Some)]).prop_map(|(what, cancel_after)| Step::Produce { what, cancel_after }),
+        2 => Just(Step::PollOnly),
+        4 => (produce(), prop_oneof![1 => Just(None), 4 => (0u8..=4).prop_map(Some)], any::<bool>()).prop_map(|(what, cancel_after, half)| Step::Produce { what, cancel_after, half }),
     ]
 }
 
@@ -1064,23 +1160,37 @@ fn case_strategy() -> impl Strategy<Value = FdCase> + Clone {
         prop_oneof![Just(Drv::IoUring), Just(Drv::Poll)],
         vec(prop_oneof![Just(ObjKind::File), Just(ObjKind::Pipe), Just(ObjKind::Tcp), Just(ObjKind::Unix)], 1..=2),
         vec(step(), 0..=24),
+        prop_oneof![3 => Just(false), 1 => Just(true)],
     )
-        .prop_map(|(drv, objects, steps)| FdCase { drv, objects, steps, second_close: !EXCLUDE_SECOND_CLOSE.load(Ordering::Relaxed) })
+        .prop_map(|(drv, objects, steps, abrupt_end)| FdCase { drv, objects, steps, second_close: !EXCLUDE_SECOND_CLOSE.load(Ordering::Relaxed), abrupt_end, close_in_flight_at_drop: !EXCLUDE_CLOSE_IN_FLIGHT.load(Ordering::Relaxed) })
 }
 
 static EXCLUDE_SECOND_CLOSE: AtomicBool = AtomicBool::new(false);
+static EXCLUDE_CLOSE_IN_FLIGHT: AtomicBool = AtomicBool::new(false);
+
+/// Consecutive cases that ended on a watchdog: when the machinery is evidently not measuring
+/// anything (the run will end as "infrastructure" anyway) the watchdogs shrink so that it ends soon.
+static WATCHDOG_STREAK: std::sync::atomic::AtomicU32 = std::sync::atomic::AtomicU32::new(0);
+
+fn watchdog_secs(default: u64) -> Duration {
+    let d = std::env::var("VERIF_WATCHDOG").ok().and_then(|v| v.parse().ok()).unwrap_or(default);
+    Duration::from_secs(if WATCHDOG_STREAK.load(Ordering::Relaxed) >= 5 { d.min(2) } else { d })
+}
 
 fn main() {
     let mut s = Session::new();
     if s.known_signatures("C06").contains("C06/close-lost-wakeup/after-second-close") {
         EXCLUDE_SECOND_CLOSE.store(true, Ordering::Relaxed);
     }
+    if s.known_signatures("C06").iter().any(|k| k.starts_with("C06/descriptor-leaked/close-in-flight-at-runtime-drop")) {
+        EXCLUDE_CLOSE_IN_FLIGHT.store(true, Ordering::Relaxed);
+    }
     let mut p = Part::new(
         "C06",
         "same-thread",
         "case = driver {io_uring, poll} x 1-2 initial objects (file, pipe pair, TCP pair, Unix stream pair) x program of 0-24 steps over the live handle / task tables: Clone(h), DropHandle(h), \
          StartOp(h, through the wrapper or as a raw op holding only the shared descriptor, pending read or immediate op), Feed(h), CancelOp(t), Close(h) = close().await as a task polled by later \
-         turns, Turn(k), Produce(accept / incoming() / Unix accept / File::open / TcpStream::connect / pipe::anonymous / UdpSocket::bind, future dropped after 0-4 loop turns or awaited and the \
+         turns, Turn(k), PollOnly (driver half of a turn only), Produce(accept / incoming() / Unix accept / File::open / TcpStream::connect / pipe::anonymous / UdpSocket::bind, future dropped after 0-4 loop turns or awaited and the \
          descriptor adopted as a new object). Oracle: fstat scan of the descriptor table before / after the case and of the case's objects after every step, sentinel opened after every observed \
          close. Non-trivial = a close() was started or pending while another handle or pending operation held the same descriptor, or a producing operation's future was dropped; distinct = \
          distinct serialised case.",
@@ -1096,8 +1206,12 @@ fn main() {
     ];
     p.regressions = vec![
         (
+            "close-op-in-flight-at-runtime-drop",
+            FdCase { drv: Drv::IoUring, objects: vec![ObjKind::File], steps: vec![Step::Close { h: 0 }], second_close: true, abrupt_end: true, close_in_flight_at_drop: true },
+        ),
+        (
             "second-close-loses-wakeup",
-            FdCase { drv: Drv::IoUring, objects: vec![ObjKind::File], steps: vec![Step::Clone { h: 0 }, Step::Close { h: 0 }, Step::Close { h: 0 }], second_close: true },
+            FdCase { drv: Drv::IoUring, objects: vec![ObjKind::File], steps: vec![Step::Clone { h: 0 }, Step::Close { h: 0 }, Step::Close { h: 0 }], second_close: true, abrupt_end: false, close_in_flight_at_drop: true },
         ),
         (
         "close-waits-for-op",
@@ -1114,9 +1228,11 @@ fn main() {
                 Step::Turn { k: 1 },
                 Step::CancelOp { t: 0 },
                 Step::Turn { k: 3 },
-                Step::Produce { what: Produce::Accept { connect_first: true }, cancel_after: Some(2) },
+                Step::Produce { what: Produce::Accept { connect_first: true }, cancel_after: Some(2), half: true },
             ],
             second_close: true,
+            abrupt_end: false,
+            close_in_flight_at_drop: true,
         },
     )];
     s.run_part(p, case_strategy(), run_fd);
